@@ -307,6 +307,9 @@ IO_TEMPLATES = [
     "len(zero)", "split(one, one)", "[one] - one", "l | map(v => v / zero)", "int('x')", "u", "1 +", "str(l) + pretty(d)",
     "match('ab', '(a')", "sorted([one, 's'])", "d['nope']", "x = [1]\nx[5] = 2", "'a' * 2", "one ** 's'", "rand(one, zero)",
     "l | reduce((p, q) => p + q)", "round(one, 's')", "%a.b.c%", "f = x => f(x)\nf(1)",
+    # unusual but legal inputs (truncating index casts, odd key spellings, deprecated-looking forms)
+    "l[3 / 2]", "l[0.5] = 1\nl", "del l[1.5]\nl", "l[one / 2:]", "d[1.50] = 2\nd[1.5]", "sum(d)", "'p' in d and d['p']",
+    "round(2.675, 2) + round(0 - 0.5)", "10 ** 400 * 10 ** 400", "int('12') + float('1.5')", "str(None) + 'x'", "l | sorted(v => 0 - v, 1)",
 ]
 if isinstance(hlib.PARAM, dict) and "io" in hlib.PARAM:
     pass
